@@ -29,7 +29,7 @@ RULE = ("input = (api, text): grammar-generated declarations / type strings (typ
         "and embedding_api(); histories of 2..10 cdef()/typeof() calls on ONE FFI (after none / "
         "a prelude cdef / ffi.include() of the prelude: failed calls in between, type strings "
         "using the names declared so far so that the backend completes them, the same string "
-        "again, opaque type used and then completed, options per call), each call judged; C side: "
+        "again, opaque type used and then completed, aggregate with runs of bit fields defined under a layout option and then built, options per call), each call judged; C side: "
         "typeof on an empty _cffi_backend.FFI() and on out-of-line modules built from generated "
         "contexts, one of them with functions and global variables (type strings use the "
         "context's typedef/struct/enum/constant/function/variable names; the same string again "
@@ -96,6 +96,13 @@ ODD_CHARS = ['\x00', '\x01', '\x0b', '\x0c', '\r', '\x1b', '\x7f', '\x80', '\xa0
              '\u0100', '\u2028', '\ufeff', '\uffff', '\U0001f600', '\t', '\\', '@', '`', '?', '#',
              '$', '"', "'", '~', '!', '%', '^', '&', '|', '<', '>', '.']
 _TOK = re.compile(r'\.\.\.|[A-Za-z_$][A-Za-z_0-9$]*|0[xX][0-9a-fA-F]*|\d+|\s+|.', re.S)
+
+
+GEN_STATS = {}      # what the generators produced (reported by the Python-side children)
+
+
+def gstat(name):
+    GEN_STATS[name] = GEN_STATS.get(name, 0) + 1
 
 
 class Env(object):
@@ -190,7 +197,10 @@ def g_base(r, env, inline_ok=True):
     if inline_ok:
         return r.choice(['struct { int a; }', 'union { int a; char b; }', 'enum { X9, Y9 }',
                          'struct in_s { int q:3; }', 'struct { ...; }', 'enum { Z9, ... }',
-                         'struct { int a; } *', 'enum e9 { P9 = 1 << 3 }'])
+                         'struct { int a; } *', 'enum e9 { P9 = 1 << 3 }',
+                         'struct { int a; char a; }', 'union { int a; struct { int a; }; }',
+                         'struct { int a : 3; int : 0; char b : 9; }',
+                         'struct { unsigned long long a : 64; int b : 99999999999999999999; }'])
     return r.choice(PRIMS)
 
 
@@ -224,7 +234,9 @@ def g_type(r, env, inner='', depth=0, cparser=False, inline_ok=True):
 def g_redecl(r, env):
     """declares AGAIN a name the environment already has: the same text verbatim, the same kind
     with another definition (completing an opaque struct, another value), or another kind"""
+    gstat('redeclarations')
     if env.texts and r.random() < 0.3:
+        gstat('redeclarations_verbatim')
         return r.choice(env.texts)
     kinds = [k for k in ('typedefs', 'structs', 'unions', 'enums', 'consts', 'globs')
              if getattr(env, k)]
@@ -261,8 +273,21 @@ def g_redecl(r, env):
                      'extern %s;' % g_type(r, env, nm)])
 
 
+BF_TYPES = [('char', 8), ('unsigned char', 8), ('short', 16), ('unsigned short', 16), ('int', 32),
+            ('unsigned', 32), ('long long', 64), ('unsigned long long', 64), ('_Bool', 8)]
+
+
 def g_fields(r, env, kw, nm):
     flds = []
+    if r.random() < 0.3:        # a run of bit fields that fit their types (layout decides)
+        gstat('aggregates_with_bitfield_runs')
+        for i in range(r.choice([2, 2, 3, 4, 6])):
+            t, w = r.choice(BF_TYPES)
+            f = r.random()
+            flds.append('%s b%d : %d;' % (t, i, r.randint(1, w) if t != '_Bool' else 1) if f < 0.8 else
+                        '%s : %d;' % (t, r.choice([0, 0, 1, w - 1])) if f < 0.88 else
+                        '%s p%d;' % (r.choice(['char', 'int', 'short', 'double']), i))
+        return ' '.join(flds)
     for i in range(r.choice([0, 1, 1, 2, 3])):
         f = r.random()
         flds.append('%s r%d : %s;' % (r.choice(['int', 'unsigned', 'long long', 'char', 'short']),
@@ -273,6 +298,9 @@ def g_fields(r, env, kw, nm):
                     if f < 0.42 else r.choice(['int', 'char', 'long long', 'double', 'void *',
                                                'short']) + ' r%d;' % i
                     if f < 0.7 else g_type(r, env, 'r%d' % i) + ';')
+    if flds and r.random() < 0.1:       # a member name used twice (also through an anonymous member)
+        gstat('aggregates_with_duplicate_member_name')
+        flds.append(r.choice(['int r0;', 'char r0 : 2;', 'struct { int r0; };', 'union { char r0; long q; };']))
     return ' '.join(flds)
 
 
@@ -385,6 +413,7 @@ def g_decl_new(r, env):
     if r.random() < 0.25:       # opaque now; a later declaration may complete it
         kind = r.choice(['struct', 'struct', 'union', 'enum'])
         nm = env.fresh('fw_')
+        gstat('forward_declarations')
         {'struct': env.structs, 'union': env.unions, 'enum': env.enums}[kind].append(nm)
         return r.choice(['%s %s;', 'typedef %s %s *%s_ptr;', 'extern %s %s *%s_var;',
                          '%s %s *%s_get(void);']).replace('%s_', nm + '_') % (kind, nm)
@@ -476,9 +505,9 @@ def g_escape(r, env):
                             r.choice([';', ';', '', ' {}', ';;']), d, r.choice(ESCAPE_TAILS))
 
 
-def g_opts(r):
+def g_opts(r, p=0.3):
     """keyword arguments of cdef(); 'embedding' stands for FFI.embedding_api()"""
-    if r.random() < 0.7:
+    if r.random() >= p:
         return {}
     return dict(r.choice([{'override': True}, {'override': True}, {'packed': True}, {'pack': 1},
                           {'pack': 2}, {'pack': 4}, {'pack': 16}, {'embedding': True},
@@ -559,6 +588,17 @@ def g_sequence(r):
                           'complete-after-use'])
             (env.structs if kw == 'struct' else env.unions).append(nm)
             asked.append(steps[-2][1])
+        elif k < 0.2:       # an aggregate is defined (often with a layout option) and then built
+            kw = r.choice(['struct', 'struct', 'union'])
+            nm = env.fresh('lay_')
+            flds = g_fields(r, env, kw, nm)
+            steps.append(['cdef', r.choice(['%s %s { %s };' % (kw, nm, flds),
+                                            'typedef %s %s { %s } %s_t;' % (kw, nm, flds, nm)]),
+                          g_opts(r, 0.6), 'define-aggregate'])
+            steps.append(['typeof', '%s %s%s' % (kw, nm, r.choice(['', '', '[2]', ' *'])), {},
+                          'use-declared'])
+            (env.structs if kw == 'struct' else env.unions).append(nm)
+            asked.append(steps[-1][1])
         elif k < 0.45:
             kind, text = gen_input(r, env, 'cdef', keep_env=True)
             steps.append(['cdef', text, g_opts(r), kind])
@@ -892,7 +932,10 @@ def run_c(st, case, rep):
 
 def child_case(st, case):
     rep = core.ChildRep(max_bad=60)
+    GEN_STATS.clear()
     (run_py if case['side'] == 'py' else run_c)(st, case, rep)
+    for k, v in sorted(GEN_STATS.items()):
+        rep.stat('py_generated_' + k, v)
     return rep.result()
 
 
